@@ -1506,11 +1506,15 @@ MANIFEST_TEXT = {
                 text="Every generated (tree, settings) case is executed by the real backup()/restore(); the trace is validated by TLC: the "
                      "restored tree must equal the source projection and RestoreOf(decoded archive), with no error. The specification's "
                      "reference backup program is model-checked exhaustively on bounded trees x settings. Concrete value generators cover all "
-                     "4096 modes, pre/post-epoch and nanosecond mtimes, named owners, names around '/', sizes around both thresholds."),
+                     "4096 modes, pre/post-epoch and nanosecond mtimes, named owners, names around '/', sizes around both thresholds, prefix-named "
+                     "sibling directories, hundreds of entries, and 'big' scenarios (contents of 100 B - 2.5 MB with zero runs, production-shape "
+                     "settings incl. the defaults; contents logged as length+digest)."),
     "C02": dict(ref="DESIGN.md 7 C02", note=TRUST,
                 text="Random operation histories (mutations, backups with varying settings, interrupted backups, deletes, gcs) run on the real "
                      "code; after every step every surviving version and the latest complete one are restored and TLC compares them with the "
-                     "snapshot ghost and RestoreOf; SnapRestores is additionally evaluated in every intermediate storage state."),
+                     "snapshot ghost and RestoreOf; SnapRestores is additionally evaluated in every intermediate storage state. Version selection "
+                     "('latest complete') is also judged on harness-written arrangements of complete / interrupted / head-less / deleted versions "
+                     "with id gaps and five-digit ids."),
     "C03": dict(ref="DESIGN.md 7 C03", note=TRUST + " Crash granularity is the storage verb plus the empty-file state.",
                 text="For each scenario the storage-verb trace of the real backup is enumerated: stop before every verb k (and for writes also "
                      "after creating an empty file); on each frozen archive versions/list/restore/validate and a follow-up backup are run and "
@@ -1528,12 +1532,15 @@ MANIFEST_TEXT = {
                      "and proves NoLoss for the protocol the code follows (and refutes it for the protocol without the second lock check). On the "
                      "real code the two operations run on separate threads under a deterministic scheduler; schedules with up to 2-3 preemptions "
                      "placed at verbs on shared keys are enumerated/sampled over archives whose garbage content reappears in the new source; every "
-                     "merged trace is validated by TLC (no complete version dangles at quiescence, every complete version restores)."),
+                     "merged trace is validated by TLC (no complete version dangles at quiescence, every complete version restores). In addition every "
+                     "schedule with up to 3 preemptions (quick: an even spread of them) is first run with the log muted and screened with the "
+                     "harness's decoder; suspicious ones are executed again with full logging and judged by TLC."),
     "C07": dict(ref="DESIGN.md 7 C07", note=TRUST,
                 text="Every mutating verb of every real trace is judged against the write-once contract of Storage.tla (create-new must refuse a "
                      "non-empty file; backup never overwrites, removes, or reuses a band id; gc removes only requested bands, unreferenced blocks, "
                      "its lock; readers never mutate). The race of two backups is model-checked in Interlock.tla and replayed under the scheduler: "
-                     "one winner per band, the loser never writes under the winner's head."),
+                     "one winner per band, the loser never writes under the winner's head. Two racing gcs are model-checked (Interlock with two "
+                     "gcs) and scheduled: a delete removes only its own lock."),
     "C08": dict(ref="DESIGN.md 7 C08", note=TRUST + " Archives for this check are written by the harness's own encoder.",
                 text="MC_Stitch.tla: TLC enumerates ALL arrangements of up to 3 band slots (absent / head-less / incomplete / complete, ids with "
                      "gaps) x all hunk layouts of subsets of an order-exercising path alphabet and proves StitchOf equal to a declarative statement "
@@ -1547,7 +1554,8 @@ MANIFEST_TEXT = {
     "C10": dict(ref="DESIGN.md 7 C10", note=TRUST + " A bit flip that leaves a hunk decodable is only required not to crash or hang.",
                 text="Every archive file other than the header x {delete, truncate 0, truncate half, garbage} plus bit flips, each followed by "
                      "versions, ls and restore of every band, validate (full, quick), a new backup and its restore, under panic capture and a "
-                     "time-out. TLC judges containment from the decoded healthy and damaged states: untouched files restore exactly in versions "
+                     "time-out; bit flips include 'smart' ones (all single-bit flips of a hunk/head/tail after which it still decodes differently, "
+                     "one per kind of difference). TLC judges containment from the decoded healthy and damaged states: untouched files restore exactly in versions "
                      "that open; files whose hunk or block is the damaged file are reported (per file for blocks); after delete/empty a new backup "
                      "completes and restores exactly."),
     "C11": dict(ref="DESIGN.md 7 C11", note=TRUST,
@@ -1582,7 +1590,8 @@ MANIFEST_TEXT = {
     "C13": dict(ref="DESIGN.md 7 C13", note=TRUST,
                 text="doc/format.md is the predicate FormatViol in spec/Format.tla; TLC evaluates it after every mutating storage verb of "
                      "every trace (histories x settings hitting hunk and block boundaries, interrupted backups), on payloads decoded by the "
-                     "harness's own reader, never by conserve."),
+                     "harness's own reader, never by conserve; sources changing under the backup; hunk placement beyond 10 000 hunks judged on a real "
+                     "10 050-hunk backup and on harness-written archives."),
     "C14": dict(ref="DESIGN.md 7 C14", note=TRUST,
                 text="Block writes of real runs are the observation: TLC rejects any write to an existing non-empty path, requires that files "
                      "unchanged against the (stitched) basis reuse its addresses, that an unchanged tree writes no block, and that "
